@@ -35,7 +35,7 @@ def run(repo, res, tier):
     c11.lookup_rule(repo, res)
     c11.ff_specialized_command(repo, res)
     common.run_traversals(repo, res, only={"check::specialize_nonterminals", "check::resolve_nonterminals"})
-    res.floor("SK-CMD", res.count("SK-CMD"), 28)
-    res.floor("SK-MATCHFN", res.count("SK-MATCHFN"), 11)
-    res.floor("FF", res.count("FF"), 15)
-    res.floor("TC", res.count("TC"), 14)
+    res.floor("SK-CMD", res.count("SK-CMD"), 17)
+    res.floor("SK-MATCHFN", res.count("SK-MATCHFN"), 6)
+    res.floor("FF", res.count("FF"), 9)
+    res.floor("TC", res.count("TC"), 7)
